@@ -1,9 +1,8 @@
 /* C15: ill-formed IR is rejected through the error callback, well-formed IR is accepted.
    Real code: insn_descs, wrong_type_p, MIR_new_insn_arr, MIR_finish_func of /repo/mir.c. */
-#define VP_GHOST_T uint64_t
 #include <stdint.h>
 #include <stddef.h>
-#include "models/alloc.h"
+#include "models/alloc_concrete.h"
 #include "mir.c"
 #include "models/error.h"
 #include "spec/mir_modes.h"
@@ -66,18 +65,30 @@ static void vp_on_error (int code) {
   __CPROVER_assert (code == vp_expected_err, "postcondition: the error code is the documented one for this violation");
   REACH ("error path");
 }
-static void vp_ctx_setup (void) {
+/* The arity table ctx->insn_nops is derived from insn_descs by check_and_prepare_insn_descs (count the
+   operand modes up to MIR_OP_BOUND).  Running its 189 VARR pushes symbolically is too slow, so the
+   harness fills a static VARR with the same count for the one opcode under test (and asserts in
+   h_desc_table that the terminator sits at the documented arity). */
+static size_t vp_nops_tab[MIR_INSN_BOUND];
+static VARR (size_t) vp_nops_varr;
+static void vp_ctx_setup (int code) {
   MIR_context_t ctx = &vp_ctx;
   ctx->alloc = &vp_alloc;
   error_func = (MIR_error_func_t) vp_error_func; /* mir.c: #define error_func ctx->error_func */
-  check_and_prepare_insn_descs (&vp_ctx); /* real: derives the arity table from insn_descs */
+  size_t j;
+  for (j = 0; insn_descs[code].op_modes[j] != MIR_OP_BOUND; j++)
+    ;
+  vp_nops_tab[code] = j;
+  vp_nops_varr.els_num = vp_nops_varr.size = MIR_INSN_BOUND;
+  vp_nops_varr.varr = vp_nops_tab;
+  insn_nops = &vp_nops_varr;
 }
 /* fixed-arity instructions: accepted iff the operand count is the documented one */
 void h_new_insn_fixed (void) {
-  vp_ctx_setup ();
   int code = nondet_int ();
   size_t nops = nondet_size ();
   __CPROVER_assume (code >= 0 && code < MIR_INSN_BOUND && nops <= 5);
+  vp_ctx_setup (code);
   spec_desc_t s = spec_desc (code);
   __CPROVER_assume (s.nops >= 0); /* variable-arity instructions have their own harness */
   __CPROVER_assume (code != MIR_VA_ARG && code != MIR_PRSET && code != MIR_PRBEQ && code != MIR_PRBNE);
@@ -99,9 +110,9 @@ static VARR (MIR_var_t) vp_args_varr;
 static MIR_var_t vp_args[3];
 static MIR_type_t vp_res_types[2];
 void h_new_insn_call (void) {
-  vp_ctx_setup ();
   int code = nondet_int ();
   __CPROVER_assume (code == MIR_CALL || code == MIR_INLINE || code == MIR_JCALL);
+  vp_ctx_setup (code);
   size_t nops = nondet_size (), nres = nondet_size (), nargs = nondet_size ();
   __CPROVER_assume (nops <= 6 && nres <= 1 && nargs <= 2);
   vp_proto.nres = (uint32_t) nres;
